@@ -258,6 +258,22 @@ func sharedOp(s *jsonapi.Schema, op string, p int) {
 				panic("a document just read already carries links, meta or relationship data of another one")
 			}
 		}
+		// a body that names a field its type does not have: the error says which, and keeps saying it
+		// while other bodies are refused (by anybody)
+		_, e1 := jsonapi.UnmarshalResource([]byte(`{"type":"t1","id":"x","attributes":{"zz`+id+`":1}}`), s)
+		je1, ok1 := e1.(jsonapi.Error)
+		if !ok1 || je1.Meta["unknown-field"] != "zz"+id || je1.Meta["type"] != "t1" {
+			panic("the error of a refused body does not name the body's own field")
+		}
+		_, e2 := jsonapi.UnmarshalPartialResource([]byte(`{"type":"t2","id":"x","relationships":{"yy`+id+`":{"data":null}}}`), s)
+		je2, ok2 := e2.(jsonapi.Error)
+		if !ok2 || je2.Meta["unknown-field"] != "yy"+id || je2.Meta["type"] != "t2" {
+			panic("the error of a refused partial body does not name the body's own field")
+		}
+		je2.Source["pointer"] = "/data/relationships/yy" + id // (a handler completes the error it passes on)
+		if je1.Meta["unknown-field"] != "zz"+id || je1.Meta["type"] != "t1" || !strings.Contains(je1.Detail, "zz"+id) || je1.Source["pointer"] != "" {
+			panic("an error kept from an earlier refusal changed when another body was refused")
+		}
 		first := doc.Data.(jsonapi.Collection).At(0)
 		if mh, ok := first.(jsonapi.MetaHolder); !ok || len(mh.Meta()) != 1 || mh.Meta()["owner"] != id ||
 			first.Get("id") != id || first.Get("a") != "x" {
